@@ -63,9 +63,10 @@ func inspectDirectory(f string, remainingDepth int) {
 		return
 	}
 
+	// ReadDir returns the entries it could read along with the error
 	entries, err := os.ReadDir(f)
 	if err != nil {
-		log.Fatalln(err)
+		log.Printf("error reading directory %#v: %v", f, err)
 	}
 
 	for _, e := range entries {
